@@ -6,7 +6,8 @@ use serde_json::json;
 
 pub fn build(tier: Tier) -> CheckDef {
     let mut spaces: Vec<Box<dyn Space>> = vec![Box::new(StreamSpace { which: Which::C08, cases: stream_cases(tier, Which::C08), threads: tier.pick(4, 8), budget_secs: tier.pick(150, 7200) })];
-    spaces.push(Box::new(Occupancy { which: Which::C08, max: tier.pick(40, 80) }));
+    spaces.push(Box::new(Occupancy { which: Which::C08, max: tier.pick(72, 100) }));
+    spaces.push(Box::new(OccupancyBig { which: Which::C08 }));
     spaces.push(Box::new(HugeSession { which: Which::C08, depth: tier.pick(2, 3), encs: tier.pick(1, 2) }));
     let (l, b) = lattice_spaces(tier, StreamLattice { which: Which::C08, open_dev: false }, "C08 stream bounds");
     spaces.extend(l);
